@@ -12,8 +12,20 @@ def same_insn(t1, t2):
 
 def run(tier):
     chk = Check('C09', tier)
-    if not chk.prove():
-        chk.violation('proof obligations of props/C09.v no longer check', chk.broken_summary(), found_input=False)
+    import att_tie
+    try:
+        ntie, badtie = att_tie.run_tie(chk)
+    except Exception as e:
+        chk.violation('dump / correspondence of the AT&T mnemonic tables failed: %s' % str(e)[:300], dict(error=str(e)[:2000]), found_input=False)
+        ntie, badtie = 0, []
+    if badtie:
+        l, m, i = badtie[0]
+        chk.violation('correspondence Att.v vs mnemo_to_att/mnemo_from_att broken on %d inputs, e.g. %r: model %s, implementation %s' % (len(badtie), l, m, i),
+                      dict(correspondence='Att.v vs ia32_arch.mnemo_to_att / mnemo_from_att', case=l, model=m, impl=i, count=len(badtie)), found_input=False)
+    if not chk.prove(['gen/AttTables.vo']):
+        w = att_tie.roundtrip_witness()
+        if w: chk.violation('the AT&T spelling of a mnemonic no longer converts back: %s' % w['why'], dict(chk.broken_summary(), **w))
+        else: chk.violation('proof obligations of props/C09.v no longer check', chk.broken_summary(), found_input=False)
     ctx = asmcheck.Ctx(chk, tier)
     bad = {}
     def note(key, case, detail): bad.setdefault(key, []).append((case, detail))
@@ -32,7 +44,8 @@ def run(tier):
                 note(asmcheck.klass('gas:%s:%s' % (syn, s[0]), x), x['b'], 'GNU as (%s mode) %s the rendering %r of %s: %s' % (syn, 'rejects' if s[0] == 'rejected' else 'warns on', x[syn], x['b'], s[1][:120]))
             elif s[1] != x['b'] and not same_insn(s[2], x['ref']) and not (x['b'][:2] in ('3e', '36') and same_insn(strip_default_seg(s[2]), strip_default_seg(x['ref']))) and not (is_nop_xchg(s[2]) and is_nop_xchg(x['ref'])):      # GNU as drops a redundant ds/ss override
                 note(asmcheck.klass('gas:%s:other-instruction' % syn, x), x['b'], 'GNU as (%s mode) assembles the rendering %r of %s to %s = %r, not an encoding of %r' % (syn, x[syn], x['b'], s[1], s[2], x['ref']))
-    chk.cov['evaluations'] = 2 * len(ctx.base) + 2 * len(sel); chk.cov['renderings_reparsed'] = 2 * len(ctx.base); chk.cov['renderings_given_to_gas'] = 2 * len(sel)
+    chk.cov['mnemonic_correspondence_cases'] = ntie
+    chk.cov['evaluations'] = ntie + 2 * len(ctx.base) + 2 * len(sel); chk.cov['renderings_reparsed'] = 2 * len(ctx.base); chk.cov['renderings_given_to_gas'] = 2 * len(sel)
     chk.cov['distinct_nontrivial'] = len(ctx.base); chk.cov['traces_validated_against_impl'] = 2 * len(ctx.base)
     asmcheck.report(chk, bad)
     chk.cov['rule'] = ('usable base strings (see C03) rendered in both syntaxes by the working tree: each rendering is re-parsed by the matching miasmX parser (candidates must contain the original bytes) and, '
